@@ -1915,8 +1915,8 @@ func (f *fragment) mergeBlock(id int, data []pairSet) (sets, clears []pairSet, e
 	sets = make([]pairSet, len(data)+1)
 	clears = make([]pairSet, len(data)+1)
 
-	// Limit upper row/column pair.
-	maxRowID := uint64(id+1) * HashBlockSize
+	// Limit upper row/column pair (inclusive) to the last row of the block.
+	maxRowID := uint64(id+1)*HashBlockSize - 1
 	maxColumnID := uint64(ShardWidth)
 
 	// Create buffered iterator for local block.
